@@ -20,6 +20,7 @@ pub mod c16;
 pub mod c17;
 pub mod c18;
 pub mod c19;
+pub mod c19_handoff;
 pub mod c20;
 pub mod e2e;
 pub mod retry_e2e;
